@@ -1,0 +1,16 @@
+//go:build verif
+
+package shelley
+
+// Contracts for /verif (contract-based deductive verification). Comment-only.
+
+// C26: in Shelley the time-to-live is mandatory; accept iff slot <= ttl.
+//@ func UtxoValidateTimeToLive(tx, slot, ls, pp) (err)
+//@   props C26
+//@   ensures onlyif: err == nil ==> slot <= tx.TTL()
+//@   cover accepts: err == nil && slot > 0
+
+// C33 (callee of the Conway rule): pure and deterministic in its arguments.
+//@ func UtxoValidateWithdrawals(tx, slot, ls, pp) (err)
+//@   functional
+//@   props C33
